@@ -53,6 +53,21 @@ static void blk_cbc(void) {
 	static const int PADV[] = { 0xff, 0x80, 0x30, 0x2f, 0x20, 0x10 }; for (int pv = 0; pv < 6; pv++) for (size_t nb = 4; nb <= 6; nb++) { if (!vh_next()) continue; uint8_t pt[200], iv[16], rec[220], ivc[16]; memset(pt, PADV[pv], sizeof pt); for (int i = 0; i < 16; i++) iv[i] = (uint8_t)(i + pv); memcpy(ivc, iv, 16);
 		rec[0] = 23; rec[1] = 1; rec[2] = 1; size_t bl = 16 + 16 * nb; rec[3] = 0; rec[4] = (uint8_t)bl; memcpy(rec + 5, iv, 16); sm4_cbc_encrypt_blocks(&EK, ivc, pt, nb, rec + 21); uint8_t ty; size_t ol; static uint8_t o2[400]; int r = cbc_open(rec, 5 + bl, SEQS[0], &ty, o2, &ol); vh_eval(vh_mix(pv * 10 + nb + 555)); if (r == 1 || r >= 77) vh_viol("C11:cbc:crafted-padding-accepted", "\"padbyte\":%d,\"blocks\":%zu,\"ret\":%d", PADV[pv], nb, r); }
 }
+/* records with MORE than the minimal padding (legal up to 255 padding octets, never produced by the library's own sender): built here from the
+   primitives with a correct MAC. The untouched record must open (it is what a conforming peer may send); every single-bit change of it - the
+   padding octets above all - must be refused, like any other bit of the protected body. */
+static size_t craft_cbc(uint8_t type, const uint8_t seq[8], const uint8_t *pay, size_t L, int extra_blocks, uint8_t *rec) {
+	static uint8_t pt[17000]; uint8_t hdr[5] = { type, 0x01, 0x01, (uint8_t)(L >> 8), (uint8_t)L }; SM3_HMAC_CTX h = HM; memcpy(pt, pay, L); sm3_hmac_update(&h, seq, 8); sm3_hmac_update(&h, hdr, 5); sm3_hmac_update(&h, pay, L); sm3_hmac_finish(&h, pt + L);
+	size_t n = L + 32; size_t pad = 16 - (n % 16) + 16 * (size_t)extra_blocks; /* pad in 1..16 (+16k) octets, each holding pad-1 */ if (pad > 256) return 0; memset(pt + n, (int)(pad - 1), pad); n += pad;
+	uint8_t iv[16]; for (int i = 0; i < 16; i++) iv[i] = (uint8_t)(0xa0 + i + extra_blocks); rec[0] = type; rec[1] = 0x01; rec[2] = 0x01; size_t bl = 16 + n; rec[3] = (uint8_t)(bl >> 8); rec[4] = (uint8_t)bl; memcpy(rec + 5, iv, 16); sm4_cbc_encrypt_blocks(&EK, iv, pt, n / 16, rec + 21); return 5 + bl; }
+static void blk_cbc_longpad(void) {
+	if (!vh_block_begin("cbc-long-padding")) return; static uint8_t rec[17500], out[17500]; static const size_t LL[] = { 0, 1, 15, 16, 17, 100 };
+	for (int li = 0; li < 6; li++) for (int xb = 0; xb <= 15; xb++) { if (!vh_next()) continue; if (!vh_thorough && !(xb <= 2 || xb == 7 || xb == 14 || xb == 15)) continue; size_t L = LL[li]; int si = (li + xb) % 8; size_t rl = craft_cbc(23, SEQS[si], PAY, L, xb, rec); if (!rl) continue;
+		uint8_t ty = 0; size_t ol = 0; int r = cbc_open(rec, rl, SEQS[si], &ty, out, &ol); size_t kk[3] = { L, (size_t)xb, 77 }; vh_eval(vh_hash(kk, sizeof kk, 3));
+		if (r != 1 || ty != 23 || ol != L || memcmp(out, PAY, L)) { vh_viol(xb ? "C11:cbc:long-padding:conforming-record-refused" : "C11:cbc:crafted-minimal-padding-record-refused", "\"len\":%zu,\"extra_blocks\":%d,\"ret\":%d", L, xb, r); continue; }
+		char mode[40]; snprintf(mode, sizeof mode, "cbc-long-padding"); tamper(mode, cbc_open, rec, rl, SEQS[si], L);
+		vh_sample("{\"block\":\"cbc-long-padding\",\"payload_len\":%zu,\"padding_octets\":%zu}", L, (size_t)(16 - ((L + 32) % 16) + 16 * xb)); }
+}
 static void blk_gcm(void) {
 	if (!vh_block_begin("gcm")) return; static uint8_t plain[16400 + 8], enc[17000], out[17000]; static const uint8_t TYPES[] = { 21, 22, 23 }; static const size_t PADS[] = { 0, 1, 15, 16, 255 };
 	for (size_t L = 0; L <= 16384; L++) { if (!vh_next()) continue; if (!vh_thorough && !quick_len(L)) continue; if (vh_deadline_hit()) { vh_capped = 1; continue; }
@@ -128,4 +143,4 @@ static void blk_live(void) {
 			if (bad || got != 62) { snprintf(key, sizeof key, "C11:live:%s:interleaved-%s:%s", PNAME[p], t ? "handshake-record" : "warning-alert", bad ? "delivered-bytes-not-a-prefix-of-the-sent-stream" : "application-records-behind-it-not-delivered"); vh_viol(key, "\"dir\":\"%s\",\"before-record\":%d,\"delivered\":%zu,\"sent\":62", dir ? "c2s" : "s2c", idx, got); } } }
 }
 int main(int argc, char **argv) { vh_init(argc, argv); app_fill(); setup(); LO = mmap(NULL, sizeof *LO, PROT_READ | PROT_WRITE, MAP_SHARED | MAP_ANONYMOUS, -1, 0); for (int p = 0; p < 3; p++) if (build_side(&LSRV[p], p, 0, 1, NULL) != 1 || build_side(&LCLI[p], p, 1, 1, NULL) != 1) vh_harness_error("creds");
-	if (!freopen("/dev/null", "w", stderr)) {} blk_live(); blk_piecewise(); vh_guarded("C11", blk_cbc, 60); vh_guarded("C11", blk_gcm, 60); return vh_finish(); }
+	if (!freopen("/dev/null", "w", stderr)) {} blk_live(); blk_piecewise(); vh_guarded("C11", blk_cbc, 60); vh_guarded("C11", blk_cbc_longpad, 60); vh_guarded("C11", blk_gcm, 60); return vh_finish(); }
